@@ -1637,6 +1637,19 @@ func generalizeErr(err error) error {
 		}
 	}
 
-	// if it is not a well known error, return it
-	return err
+	// if it is not a well known error, return it without the endpoint addresses
+	return stripAddrs(err)
+}
+
+// stripAddrs rebuilds the first *net.OpError in the chain of err from its operation, network and
+// cause, leaving out Source and Addr: OpError.Error() prints both endpoints of the connection
+// ("read tcp 10.0.0.1:41245->203.0.113.7:5555: ..."), which would put client addresses into the logs
+// and tunnel statistics. Wrappers around the OpError are dropped because their text repeats it.
+// An error without an OpError in its chain is returned unchanged.
+func stripAddrs(err error) error {
+	var opErr *net.OpError
+	if !errors.As(err, &opErr) {
+		return err
+	}
+	return &net.OpError{Op: opErr.Op, Net: opErr.Net, Err: stripAddrs(opErr.Err)}
 }
